@@ -370,10 +370,12 @@ Exclude(st, s) ==
       ipos(src) == IF \E p \in Idx(st.inputs) : st.inputs[p] = src
                    THEN (CHOOSE p \in Idx(st.inputs) : st.inputs[p] = src) - 1 ELSE -1
       okey(i) == IF st.frame[i].src # "" THEN ipos(st.frame[i].src) ELSE i
-      before(i, j) == okey(i) < okey(j) \/ (okey(i) = okey(j) /\ i < j)
+      comp(i) == st.frame[i].src = ""
+      before(i, j) == \/ okey(i) < okey(j)
+                      \/ okey(i) = okey(j) /\ comp(i) /\ ~comp(j)
+                      \/ okey(i) = okey(j) /\ comp(i) = comp(j) /\ i < j
       keep == SortSeq(SetToSeq(oset), before)
-      tie == \/ \E i, j \in oset : st.frame[i].src = "" /\ st.frame[j].src # "" /\ okey(i) = okey(j)
-             \/ \E i \in oset : st.frame[i].src # "" /\ okey(i) < 0
+      tie == \E i \in oset : st.frame[i].src # "" /\ okey(i) < 0
   IN
   IF sc # "ok" THEN Bad(st, sc)
   \* (SQL has no relation without columns: excluding everything is not judged)
@@ -496,12 +498,15 @@ Group(st, s, dbs, schema) ==
       ipos(src) == IF \E p \in Idx(st.inputs) : st.inputs[p] = src
                    THEN (CHOOSE p \in Idx(st.inputs) : st.inputs[p] = src) - 1 ELSE -1
       okey(i) == IF st.frame[i].src # "" THEN ipos(st.frame[i].src) ELSE i
-      before(i, j) == okey(i) < okey(j) \/ (okey(i) = okey(j) /\ i < j)
+      \* equal keys of a computed column and an input block: the column first (it precedes that
+      \* input's columns in the frame; before the repair of F85 this order depended on hash seeds)
+      comp(i) == st.frame[i].src = ""
+      before(i, j) == \/ okey(i) < okey(j)
+                      \/ okey(i) = okey(j) /\ comp(i) /\ ~comp(j)
+                      \/ okey(i) = okey(j) /\ comp(i) = comp(j) /\ i < j
       others == SortSeq(SetToSeq(oset), before)
-      \* equal keys of a computed column and an input block: the resolver's
-      \* order then depends on hash-map iteration (see C11); no meaning here
-      tie == \/ \E i, j \in oset : st.frame[i].src = "" /\ st.frame[j].src # "" /\ okey(i) = okey(j)
-             \/ \E i \in oset : st.frame[i].src # "" /\ okey(i) < 0
+      \* two computed columns cannot tie; a column of an input the resolver does not know has no key
+      tie == \E i \in oset : st.frame[i].src # "" /\ okey(i) < 0
       perm == kidx \o others
       nk == Len(kidx)
       fr0 == [m \in Idx(perm) |-> [st.frame[perm[m]] EXCEPT !.key = (m <= nk)]]
